@@ -455,7 +455,39 @@ func genCase(rng *rand.Rand, id string, p genParams) cases.ScanCase {
 		sc.Bare = false // the noise index needs a work tree
 	}
 	sc.OmitEmptyTree = rng.Intn(2) == 0
+	// signed commits and merges of signed tags: multi-line headers (continuation lines start with a space) after the
+	// committer line; the block is part of the commit's size, and what it quotes (tree / parent / object lines of the
+	// merged tag) is no header of the commit
+	if n > 0 && rng.Intn(3) == 0 {
+		sc.Extra = map[int]string{}
+		for k := 0; k < 1+rng.Intn(2); k++ {
+			ci := 1 + rng.Intn(n)
+			sc.Extra[ci] = signatureHeaders(rng)
+			sc.G.Commits[ci-1].Size = 0 // its natural size (a size requested for ties would be below the block's)
+		}
+	}
 	return sc
+}
+
+// signatureHeaders: a mergetag block, a gpgsig block, or both, of random length (up to ~8 KB).
+func signatureHeaders(rng *rand.Rand) string {
+	var b strings.Builder
+	hexs := strings.Repeat("89abcdef", 5)
+	if rng.Intn(2) == 0 {
+		fmt.Fprintf(&b, "mergetag object %s\n type commit\n tag v1.0\n tagger T <t@e.x> 1000000000 +0000\n \n merged tag\n parent %s\n tree %s\n", hexs, hexs, hexs)
+		if rng.Intn(2) == 0 {
+			b.WriteString(" -----BEGIN PGP SIGNATURE-----\n \n iQEzBAABCAAdFiEE\n -----END PGP SIGNATURE-----\n")
+		}
+	}
+	if b.Len() == 0 || rng.Intn(2) == 0 {
+		key := []string{"gpgsig", "gpgsig-sha256"}[rng.Intn(2)]
+		fmt.Fprintf(&b, "%s -----BEGIN PGP SIGNATURE-----\n \n", key)
+		for i, lines := 0, 1+rng.Intn(120); i < lines; i++ {
+			fmt.Fprintf(&b, " %s\n", strings.Repeat("wsBcBAABCAAQBQJ", 4)+fmt.Sprintf("%04d", i))
+		}
+		b.WriteString(" -----END PGP SIGNATURE-----\n")
+	}
+	return b.String()
 }
 
 // wideCase: a root tree with `width` sub-directories, each holding one file (git delivers the
@@ -537,8 +569,12 @@ func tagChainCases(prefix string) []cases.ScanCase {
 					}
 					roots = append(roots, cases.RootSpec{O: model.Oid{K: "g", I: d}, Walk: true, IsRef: true, Name: name, Kind: "plain"})
 				}
+				// a plain annotated tag of the commit whose reference sorts last: the tag that is finished last is not
+				// the deepest one
+				g.Tags = append(g.Tags, model.Tag{TK: "c", To: 1, Size: 160})
+				roots = append(roots, cases.RootSpec{O: model.Oid{K: "g", I: len(g.Tags)}, Walk: true, IsRef: true, Name: "refs/tags/zz-plain", Kind: "plain"})
 				sort.SliceStable(roots, func(i, j int) bool { return roots[i].Name < roots[j].Name })
-				for _, style := range []string{"full", "hash"} {
+				for _, style := range []string{"full", "hash", "none"} {
 					if style == "hash" && place != "outermost-only" {
 						continue
 					}
